@@ -87,6 +87,30 @@ class EZSPv14(EZSPv13):
 
         return zigpy.state.Key(key=tc_link_key_data)
 
+    async def read_link_keys(self) -> AsyncGenerator[zigpy.state.Key, None]:
+        (status, key_table_size) = await self.getConfigurationValue(
+            configId=t.EzspConfigId.CONFIG_KEY_TABLE_SIZE
+        )
+
+        for index in range(key_table_size):
+            # `status` comes first and the EUI64 is a part of the context in EZSPv14
+            (
+                status,
+                context,
+                plaintext_key,
+                key_data,
+            ) = await self.exportLinkKeyByIndex(index=index)
+
+            if status != t.sl_Status.OK:
+                continue
+
+            yield zigpy.state.Key(
+                key=plaintext_key,
+                tx_counter=key_data.outgoing_frame_counter,
+                rx_counter=key_data.incoming_frame_counter,
+                partner_ieee=context.eui64,
+            )
+
     async def send_unicast(
         self,
         nwk: t.NWK,
